@@ -568,6 +568,9 @@ def lifecycle_cases(requests=('incr', 'decr', 'set', 'restart', 'reload',
             if not wc.get("singleton"):
                 wc["numprocesses"] = draw(st.integers(1, 3))
             c["sockets"] = [draw(st.sampled_from(['unix', 'inet']))]
+            for other in watchers[1:]:
+                if draw(st.booleans()):
+                    other["use_sockets"] = True
             for _ in range(draw(st.integers(1, 3))):
                 pos = draw(st.integers(0, len(ops)))
                 burst = [["conn", 0]]
